@@ -1,11 +1,16 @@
 (* C19 — a newer protocol version handles the older protocol's types identically.
-   PARTIAL: the table facts below are proved (by computation, complete because
-   the generated tables are finite); the end-to-end statement "the same history
-   gives the same outcomes, writes and registry under both versions" is not
-   proved as a simulation theorem — the model reads the protocol only through the
-   lookups compared here, and the correspondence run compares two real gateways. *)
+   Within a major line (1.4 / 1.5; 2.0 / 2.1 / 2.2) the end-to-end statement is
+   proved as a SIMULATION over whole histories (C19_minor_history): two gateways
+   that agree on everything but the reported version / active protocol produce,
+   operation by operation, the same outcome, the same writes and related worlds
+   (same registry, buffers, configuration) — for every oracle, fault stream and
+   history whose internal / stream types exist in the older protocol, outside the
+   documented exception (22 towards 2.2), which is shown to be necessary.
+   PARTIAL: across the major line (1.x -> 2.x) only the table facts are proved
+   (C19_major: each 2.x chain is the 1.x chain under protocol_20 / 22 layers); the
+   two real gateways are compared by the correspondence run. *)
 From Coq Require Import List NArith ZArith Bool String.
-From AMS Require Import Models GatewayFacts GatewayInv GatewaySteps TablesMono.
+From AMS Require Import Models Codec GatewayFacts GatewayInv GatewaySteps TablesMono GatewaySim.
 Import ListNotations.
 Local Open Scope Z_scope.
 
@@ -87,3 +92,91 @@ Proof.
   destruct E as [ns E]. rewrite E. repeat split; reflexivity.
 Qed.
 Print Assumptions C19_heartbeat_22.
+
+(* ---------- the simulation ---------- *)
+
+(* which pairs agree on the dispatch of every type of the older protocol: computed on
+   the generated tables (indices: 0 = 1.4, 1 = 1.5, 2 = 2.0, 3 = 2.1, 4 = 2.2) *)
+Theorem C19_minor_pairs :
+  pair_agree_b [] (proto_at 0) (proto_at 1) = true
+  /\ pair_agree_b [] (proto_at 2) (proto_at 3) = true
+  /\ pair_agree_b [22] (proto_at 3) (proto_at 4) = true
+  /\ pair_agree_b [22] (proto_at 2) (proto_at 4) = true
+  /\ pair_agree_b [] (proto_at 3) (proto_at 4) = false.
+Proof. exact minor_pairs_agree. Qed.
+Print Assumptions C19_minor_pairs.
+
+(* the hypothesis of the property on a history: every received line that decodes carries
+   a type of the older protocol (internal: outside the exception); sends are unrestricted *)
+Definition history_in_older (except : list Z) (i : nat) (ops : list op) : Prop :=
+  Forall (fun o => match o with
+                   | ORecv line _ => forall m, decode (proto_at i) line = DecOk m -> in_older except (proto_at i) m
+                   | _ => True
+                   end) ops.
+
+(* for every oracle, every history (received lines with fault streams, sends, reconnects)
+   and every pair of worlds related by Rw i j (equal but for reported version / active
+   protocol i resp. j, or equal): per operation the same outcome (the unsupported-message
+   error compared without the version string it carries) and the same write log; the final
+   worlds are related again *)
+Theorem C19_minor_history :
+  forall bat vlt now except i j ops w w',
+    pair_agree_b except (proto_at i) (proto_at j) = true ->
+    history_in_older except i ops ->
+    Rw i j w w' ->
+    Forall2 (fun x x' => outcome_rel (fst x) (fst x') /\ snd x = snd x')
+            (trace bat vlt now w ops) (trace bat vlt now w' ops)
+    /\ Rw i j (run_ops bat vlt now w ops) (run_ops bat vlt now w' ops).
+Proof.
+  intros bat vlt now except i j ops w w' Hp Hh Hw. apply sim_history; [|exact Hw].
+  unfold history_in_older in Hh. rewrite Forall_forall in Hh |- *. intros o Ho. specialize (Hh o Ho).
+  destruct o as [line faults|m b faults|]; cbn [op_agree]; try exact I.
+  apply (line_agree_of_tables except); assumption.
+Qed.
+Print Assumptions C19_minor_history.
+
+(* one step, for any line the two tables agree on (the general form) *)
+Theorem C19_step :
+  forall bat vlt now i j o w w',
+    op_agree i j o -> Rw i j w w' ->
+    let r := step_op bat vlt now w o in let r' := step_op bat vlt now w' o in
+    Rw i j (fst (fst r)) (fst (fst r')) /\ outcome_rel (snd (fst r)) (snd (fst r')) /\ snd r = snd r'.
+Proof. exact sim_step_op. Qed.
+Print Assumptions C19_step.
+
+Definition sim_bat : list N -> option Z := fun _ => Some 55.
+Definition sim_vlt := vlt_full (fun _ _ => None).
+Definition pin (pv : string) (i : nat) (w : world) : world :=
+  {| w_nodes := w_nodes w; w_pv := Some (lit pv); w_proto := i; w_internal := w_internal w; w_set := w_set w;
+     w_metric := w_metric w |}.
+Definition sim_w0 : world :=
+  w_put_node (w_add_child (w_put_node (init_world true) (mk_node 1 17 (lit "2.0") [] [] 0 0 false true)) 1 0 3 [])
+             (mk_node 2 17 (lit "2.0") [] [] 0 0 false false).
+Definition sim_ops : list op :=
+  [OSend (mk_msg 1 0 1 0 2 (lit "1")) true []; ORecv (lit "2;255;3;0;0;77") []; ORecv (lit "1;0;1;0;2;0") [];
+   ORecv (lit "9;255;3;0;3;") [true]; OReconnect; ORecv (lit "1;255;3;0;22;500") []; ORecv (lit "0;255;3;0;2;2.1.0") [];
+   ORecv (lit "2;255;3;0;6;") []].
+
+(* non-vacuity: a history over 2.0's types, run under 2.0 and under 2.1 (it parks a command,
+   releases it at the heartbeat, hands out an id with a failing write, processes a version
+   report after which both worlds are equal) *)
+Example C19_minor_example :
+  history_in_older [] 2 sim_ops
+  /\ Rw 2 3 (pin "2.0" 2 sim_w0) (pin "2.1" 3 sim_w0)
+  /\ map snd (trace sim_bat sim_vlt 0 (pin "2.0" 2 sim_w0) sim_ops) = map snd (trace sim_bat sim_vlt 0 (pin "2.1" 3 sim_w0) sim_ops)
+  /\ List.length (List.concat (map snd (trace sim_bat sim_vlt 0 (pin "2.0" 2 sim_w0) sim_ops))) = 3%nat.
+Proof.
+  split; [|split; [|split]].
+  - unfold history_in_older, sim_ops. repeat (apply Forall_cons; [try exact I|]); try apply Forall_nil.
+    all: intros m E; vm_compute in E; injection E as <-; split; intros K; try discriminate K; vm_compute; try reflexivity;
+      split; reflexivity.
+  - left. repeat split.
+  - vm_compute. reflexivity.
+  - vm_compute. reflexivity.
+Qed.
+
+(* the exception is necessary: the heartbeat response releases under 2.1 and not under 2.2 *)
+Example C19_exception_necessary :
+  let ops := [OSend (mk_msg 1 0 1 0 2 (lit "1")) true []; ORecv (lit "1;255;3;0;22;500") []] in
+  map snd (trace sim_bat sim_vlt 0 (pin "2.1" 3 sim_w0) ops) <> map snd (trace sim_bat sim_vlt 0 (pin "2.2" 4 sim_w0) ops).
+Proof. vm_compute. discriminate. Qed.
